@@ -57,3 +57,244 @@ Proof.
   replace (to <=? from) with false by (symmetry; apply Z.leb_gt; lia).
   rewrite (no_replayable_range hist refuse from to Hno). rewrite andb_false_r. reflexivity.
 Qed.
+
+(* ---------- the decimal text of a number reads back as that number ---------- *)
+From QF Require Codec.FixInt Codec.FixIntSpec Codec.FixIntProofs.
+
+Lemma dec_digits_value : forall d n, dec_digits d n = Codec.FixInt.dec_value d n.
+Proof. induction d as [|c r IH]; intros n; cbn; [reflexivity | apply IH]. Qed.
+
+Lemma dec_z_cons : forall c r, dec_z (c :: r) = if c =? 45 then - dec_digits r 0 else dec_digits (c :: r) 0.
+Proof.
+  intros c r. destruct (Z.eqb_spec c 45) as [->|Hn]; [reflexivity|].
+  unfold dec_z. destruct c as [|p|p]; try reflexivity.
+  do 6 (try (destruct p as [p|p|]; try reflexivity)). exfalso; apply Hn; reflexivity.
+Qed.
+
+Lemma dec_z_itoa : forall z, dec_z (itoa z) = z.
+Proof.
+  intros z. rewrite <- (Codec.FixIntProofs.int_value_itoa z) at 2.
+  destruct (itoa z) as [|c r]; [reflexivity|].
+  rewrite dec_z_cons. unfold Codec.FixIntSpec.int_value. change MINUS with 45.
+  destruct (c =? 45); rewrite dec_digits_value; reflexivity.
+Qed.
+
+(* ---------- the keys IterateMessages visits: the stored numbers of [b, e], ascending, each once ---------- *)
+Definition lt_all (k : Z) (l : list Z) : Prop := forall x, In x l -> k < x.
+Inductive inc : list Z -> Prop :=
+| inc_nil : inc []
+| inc_cons : forall k l, lt_all k l -> inc l -> inc (k :: l).
+
+Lemma insert_sorted_in : forall k l x, In x (insert_sorted k l) <-> x = k \/ In x l.
+Proof.
+  induction l as [|y r IH]; intros x; cbn [insert_sorted In].
+  - intuition.
+  - destruct (k <? y); [cbn [In]; intuition|].
+    destruct (Z.eqb_spec k y) as [->|Hn]; cbn [In]; [intuition|]. rewrite IH. intuition.
+Qed.
+
+Lemma insert_sorted_inc : forall k l, inc l -> inc (insert_sorted k l).
+Proof.
+  induction l as [|y r IH]; intros Hi; cbn [insert_sorted].
+  - constructor; [intros x []|constructor].
+  - inversion Hi as [|y' r' Hlt Hr]; subst.
+    destruct (Z.ltb_spec k y) as [Hk|Hk].
+    + constructor; [|exact Hi]. intros x [->|Hx]; [exact Hk | specialize (Hlt x Hx); lia].
+    + destruct (Z.eqb_spec k y) as [->|Hn]; [exact Hi|].
+      constructor; [|apply IH; exact Hr].
+      intros x Hx. apply insert_sorted_in in Hx as [->|Hx]; [lia | apply Hlt; exact Hx].
+Qed.
+
+Lemma lookup_none_iff : forall x msgs, lookup_msg x msgs <> None <-> In x (map fst msgs).
+Proof.
+  induction msgs as [|[k m] r IH]; cbn [lookup_msg map In fst].
+  - intuition.
+  - destruct (Z.eqb_spec k x) as [->|Hn]; [intuition congruence|]. rewrite IH. intuition.
+Qed.
+
+Lemma stored_keys_in_spec : forall b e msgs,
+  inc (stored_keys_in b e msgs)
+  /\ forall x, In x (stored_keys_in b e msgs) <-> (b <= x <= e /\ lookup_msg x msgs <> None).
+Proof.
+  intros b e msgs. unfold stored_keys_in.
+  induction msgs as [|[k m] r [IH1 IH2]]; cbn [fold_right fst].
+  - split; [constructor|]. intros x; cbn. intuition.
+  - destruct (Z.leb_spec b k) as [Hb|Hb]; destruct (Z.leb_spec k e) as [He|He]; cbn [andb];
+      (split; [try apply insert_sorted_inc; exact IH1|]); intros x; rewrite ?insert_sorted_in, IH2, !lookup_none_iff; cbn [map In fst];
+      intuition; try lia.
+Qed.
+
+(* ---------- one step of the reply: a replayed message extends the chain by one ---------- *)
+Lemma chain_replay : forall msgs refuse k sm hdr,
+  lookup_msg k msgs = Some sm -> is_admin (o_type sm) = false -> existsb (Z.eqb k) refuse = false ->
+  c03_chain msgs refuse k [{| o_type := o_type sm; o_seq := k; o_hdr := [(43, B "Y"); (122, B "T")] ++ hdr; o_body := o_body sm |}]
+  = inl (k + 1).
+Proof.
+  intros msgs refuse k sm hdr Hl Ha Hr. cbn [c03_chain].
+  match goal with |- context [is_possdup ?m] => change (is_possdup m) with true; change (o_seq m) with k;
+     change (is_type T_SEQRESET m) with (beq_bytes (o_type sm) T_SEQRESET); change (o_type m) with (o_type sm);
+     change (o_body m) with (o_body sm); change (field_of 122 (o_hdr m)) with (Some (B "T")) end.
+  rewrite Z.eqb_refl. cbn [negb].
+  assert (Hs : beq_bytes (o_type sm) T_SEQRESET = false).
+  { unfold is_admin in Ha. repeat (apply orb_false_elim in Ha as [Ha ?]). assumption. }
+  rewrite Hs, Hl. unfold replayable. rewrite Hl, Ha, Hr. cbn [negb andb].
+  rewrite beq_bytes_refl, body_eq_refl. cbn [negb andb]. change (opt_beq (Some (B "T")) (B "T")) with true. reflexivity.
+Qed.
+
+Lemma gen_seq_reset_wire s b e ir : flushing s ->
+  s_wire (generate_sequence_reset s b e ir)
+  = {| o_type := T_SEQRESET; o_seq := b; o_hdr := [(43, B "Y"); (122, B "T")] ++ default_hdr s (Some ir);
+       o_body := [(36, itoa e); (123, B "Y")] |} :: s_wire s.
+Proof.
+  intros Hf. unfold generate_sequence_reset.
+  match goal with |- context [enqueue_bytes_and_send ?x ?m] =>
+    assert (Hx : flushing x) by exact Hf; destruct (enqueue_bytes_flushing x m Hx) as (_ & F2 & _) end.
+  exact F2.
+Qed.
+
+(* ---------- the loop of resendMessages ---------- *)
+Definition nrep (msgs : list (Z * omsg)) (refuse : list Z) (a b : Z) : Prop :=
+  forall k, a <= k < b -> replayable msgs refuse k = false.
+
+Lemma resend_loop_chain : forall msgs ir e keys s a nx s1 x y,
+  resend_loop keys s ir a nx = (s1, x, y) ->
+  flushing s -> s_msgs s = msgs ->
+  inc keys -> (forall k, In k keys -> nx <= k <= e /\ lookup_msg k msgs <> None) ->
+  (forall k, nx <= k <= e -> ~ In k keys -> lookup_msg k msgs = None) ->
+  a <= nx -> nrep msgs (mi_refuse ir) a nx ->
+  exists new, s_wire s1 = new ++ s_wire s /\ s_msgs s1 = msgs /\ flushing s1
+    /\ x <= y /\ nrep msgs (mi_refuse ir) x y /\ nx <= y /\ (forall k, In k keys -> k < y) /\ (y = nx \/ In (y - 1) keys)
+    /\ c03_chain msgs (mi_refuse ir) a (rev new) = inl x.
+Proof.
+  intros msgs ir e. induction keys as [|k r IH]; intros s a nx s1 x y E Hf Hm Hinc Hkeys Hnon Han Hnr; cbn [resend_loop] in E.
+  - inversion E; subst s1 x y. exists []. cbn [app rev c03_chain].
+    split; [reflexivity|]. split; [exact Hm|]. split; [exact Hf|]. split; [exact Han|]. split; [exact Hnr|]. split; [lia|].
+    split; [intros k []|]. split; [left; reflexivity | reflexivity].
+  - subst msgs. inversion Hinc as [|k' r' Hlt Hr]; subst k' r'.
+    destruct (Hkeys k (or_introl eq_refl)) as [Hk Hst].
+    assert (Hkeys' : forall k0, In k0 r -> k + 1 <= k0 <= e /\ lookup_msg k0 (s_msgs s) <> None).
+    { intros k0 H0. specialize (Hlt k0 H0). destruct (Hkeys k0 (or_intror H0)). split; [lia | assumption]. }
+    assert (Hnon' : forall k0, k + 1 <= k0 <= e -> ~ In k0 r -> lookup_msg k0 (s_msgs s) = None).
+    { intros k0 H0 H1. apply Hnon; [lia|]. intros [->|H2]; [lia | exact (H1 H2)]. }
+    assert (Hbelow : forall j, nx <= j < k -> replayable (s_msgs s) (mi_refuse ir) j = false).
+    { intros j Hj. unfold replayable. rewrite Hnon; [reflexivity | lia |].
+      intros [->|H2]; [lia | specialize (Hlt j H2); lia]. }
+    destruct (lookup_msg k (s_msgs s)) as [sm|] eqn:El; [|exfalso; apply Hst; reflexivity].
+    assert (finish : forall s2 a2, resend_loop r s2 ir a2 (k + 1) = (s1, x, y) -> flushing s2 -> s_msgs s2 = s_msgs s -> a2 <= k + 1 ->
+              nrep (s_msgs s) (mi_refuse ir) a2 (k + 1) ->
+              exists new, s_wire s1 = new ++ s_wire s2 /\ s_msgs s1 = s_msgs s /\ flushing s1
+                /\ x <= y /\ nrep (s_msgs s) (mi_refuse ir) x y /\ nx <= y /\ (forall k0, In k0 (k :: r) -> k0 < y)
+                /\ (y = nx \/ In (y - 1) (k :: r)) /\ c03_chain (s_msgs s) (mi_refuse ir) a2 (rev new) = inl x).
+    { intros s2 a2 E2 Hf2 Hm2 Ha2 Hn2.
+      destruct (IH s2 a2 (k + 1) s1 x y E2 Hf2 Hm2 Hr Hkeys' Hnon' Ha2 Hn2) as (new & G1 & G2 & G3 & G4 & G5 & G6 & G7 & G8 & G9).
+      exists new. split; [exact G1|]. split; [exact G2|]. split; [exact G3|]. split; [exact G4|]. split; [exact G5|]. split; [lia|].
+      split; [|split; [|exact G9]].
+      - intros k0 [->|H0]; [lia | apply G7; exact H0].
+      - right. destruct G8 as [->|G8]; [left; lia | right; exact G8]. }
+    destruct (is_admin (o_type sm)) eqn:Ea.
+    { (* administrative: skipped, the pending gap grows *)
+      apply (finish s a) in E; try assumption; try reflexivity; try lia.
+      intros j Hj. destruct (Z.eq_dec j k) as [->|Hne].
+      - unfold replayable. rewrite El, Ea. reflexivity.
+      - destruct (Z.lt_ge_cases j nx); [apply Hnr; lia | apply Hbelow; lia]. }
+    set (s2 := log_cb s (CbToApp k true)) in E.
+    assert (Hf2 : flushing s2) by exact Hf.
+    destruct (existsb (Z.eqb k) (mi_refuse ir)) eqn:Eref.
+    { (* refused by ToApp: skipped as well *)
+      apply (finish s2 a) in E; try assumption; try reflexivity; try lia.
+      intros j Hj. destruct (Z.eq_dec j k) as [->|Hne].
+      - unfold replayable. rewrite El, Eref, andb_false_r. reflexivity.
+      - destruct (Z.lt_ge_cases j nx); [apply Hnr; lia | apply Hbelow; lia]. }
+    (* replayed, after a gap fill over [a, k) when a < k *)
+    assert (Hgf : exists s3 pre, (if a =? k then s2 else generate_sequence_reset s2 a k ir) = s3 /\ flushing s3 /\ s_msgs s3 = s_msgs s
+                    /\ s_wire s3 = pre ++ s_wire s /\ c03_chain (s_msgs s) (mi_refuse ir) a (rev pre) = inl k).
+    { destruct (Z.eqb_spec a k) as [->|Hne].
+      - exists s2, []. split; [reflexivity|]. split; [exact Hf2|]. split; [reflexivity|]. split; reflexivity.
+      - destruct (gen_seq_reset_flushing s2 a k ir Hf2) as (G1 & _ & G4).
+        eexists; eexists (cons _ nil). split; [reflexivity|]. split; [exact G1|]. split; [exact G4|].
+        rewrite (gen_seq_reset_wire s2 a k ir Hf2). split; [reflexivity|].
+        cbn [rev app]. apply chain_gapfill; [lia | | apply dec_z_itoa].
+        intros j Hj. destruct (Z.lt_ge_cases j nx); [apply Hnr; lia | apply Hbelow; lia]. }
+    destruct Hgf as (s3 & pre & E3 & Hf3 & Hm3 & Hw3 & Hc3). rewrite E3 in E.
+    match type of E with resend_loop r (enqueue_bytes_and_send s3 ?m) _ _ _ = _ =>
+      destruct (enqueue_bytes_flushing s3 m Hf3) as (F1 & F2 & F3);
+      apply (finish _ (k + 1)) in E; [| exact F1 | rewrite F3; exact Hm3 | lia | intros j Hj; lia];
+      destruct E as (new & G1 & G2 & G3 & G4 & G5 & G6 & G7 & G8 & G9);
+      exists (new ++ m :: pre)
+    end.
+    split; [rewrite G1, F2, Hw3, <- app_assoc; reflexivity|].
+    split; [exact G2|]. split; [exact G3|]. split; [exact G4|]. split; [exact G5|]. split; [exact G6|]. split; [exact G7|]. split; [exact G8|].
+    rewrite rev_app_distr. cbn [rev]. rewrite <- app_assoc, chain_app, Hc3, chain_app.
+    rewrite (chain_replay _ _ _ _ _ El Ea Eref). exact G9.
+Qed.
+
+(* ---------- resendMessages: the reply is a contiguous cover of [b, e] ---------- *)
+Theorem resend_messages_chain : forall s b e ir,
+  flushing s -> c_disable_persist (s_cfg s) = false ->
+  b <= e -> lookup_msg e (s_msgs s) <> None ->
+  exists new, s_wire (resend_messages s b e ir) = new ++ s_wire s
+    /\ c03_chain (s_msgs s) (mi_refuse ir) b (rev new) = inl (e + 1).
+Proof.
+  intros s b e ir Hf Hp Hbe He. unfold resend_messages. rewrite Hp.
+  destruct (stored_keys_in_spec b e (s_msgs s)) as [Hinc Hin].
+  destruct (resend_loop (stored_keys_in b e (s_msgs s)) s ir b b) as [[s1 x] y] eqn:E.
+  destruct (resend_loop_chain (s_msgs s) ir e _ s b b s1 x y E Hf eq_refl Hinc) as (new & G1 & G2 & G3 & G4 & G5 & G6 & G7 & G8 & G9).
+  - intros k Hk. apply Hin in Hk. exact Hk.
+  - intros k Hk Hn. destruct (lookup_msg k (s_msgs s)) eqn:El; [|reflexivity].
+    exfalso. apply Hn. apply Hin. split; [exact Hk | rewrite El; discriminate].
+  - lia.
+  - intros k Hk. lia.
+  - assert (Hy : y = e + 1).
+    { assert (e < y) by (apply G7, Hin; split; [lia | exact He]).
+      destruct G8 as [->|G8]; [lia|]. apply Hin in G8. lia. }
+    subst y. destruct (Z.eqb_spec x (e + 1)) as [->|Hne].
+    + exists new. split; assumption.
+    + rewrite (gen_seq_reset_wire s1 x (e + 1) ir G3), G1.
+      eexists (_ :: new). split; [reflexivity|].
+      cbn [rev]. rewrite chain_app, G9. apply chain_gapfill; [lia | exact G5 | apply dec_z_itoa].
+Qed.
+
+(* nothing is written for an empty range *)
+Theorem resend_messages_empty_range : forall s b e ir,
+  c_disable_persist (s_cfg s) = false -> e < b -> resend_messages s b e ir = s.
+Proof.
+  intros s b e ir Hp Heb. unfold resend_messages. rewrite Hp.
+  destruct (stored_keys_in_spec b e (s_msgs s)) as [_ Hin].
+  destruct (stored_keys_in b e (s_msgs s)) as [|k r].
+  - cbn [resend_loop]. rewrite Z.eqb_refl. reflexivity.
+  - exfalso. destruct (proj1 (Hin k) (or_introl eq_refl)). lia.
+Qed.
+
+(* without persistence: one gap fill over the whole range *)
+Theorem resend_messages_chain_no_persist : forall s b e ir,
+  flushing s -> c_disable_persist (s_cfg s) = true -> s_msgs s = [] -> b <= e ->
+  exists new, s_wire (resend_messages s b e ir) = new ++ s_wire s
+    /\ c03_chain (s_msgs s) (mi_refuse ir) b (rev new) = inl (e + 1).
+Proof.
+  intros s b e ir Hf Hp Hm Hbe. unfold resend_messages. rewrite Hp.
+  replace (e <? b) with false by (symmetry; apply Z.ltb_ge; lia).
+  rewrite (gen_seq_reset_wire s b (e + 1) ir Hf). eexists (_ :: nil). split; [reflexivity|].
+  cbn [rev app]. apply chain_gapfill; [lia | | apply dec_z_itoa].
+  intros k _. unfold replayable. rewrite Hm. reflexivity.
+Qed.
+
+(* the spec predicate the driver evaluates on every observed reply holds of what the model writes *)
+Theorem c03_reply_check_model : forall s m b e0,
+  flushing s -> mi_beginseq m = FVal b -> mi_endseq m = FVal e0 -> 1 <= b ->
+  let e := clip_end (s_cfg s) (s_snd s) e0 in
+  (if c_disable_persist (s_cfg s) then s_msgs s = [] else b <= e -> lookup_msg e (s_msgs s) <> None) ->
+  exists new, s_wire (resend_messages s b e m) = new ++ s_wire s
+    /\ c03_reply_check (s_cfg s) (s_msgs s) (s_snd s) m (rev new) = [].
+Proof.
+  intros s m b e0 Hf Hb He0 H1 e Hst. unfold c03_reply_check. rewrite Hb, He0. fold e.
+  replace (b <? 1) with false by (symmetry; apply Z.ltb_ge; lia).
+  destruct (Z.ltb_spec e b) as [Hlt|Hge].
+  - exists []. split; [|reflexivity]. destruct (c_disable_persist (s_cfg s)) eqn:Hp.
+    + unfold resend_messages. rewrite Hp. replace (e <? b) with true by (symmetry; apply Z.ltb_lt; lia). reflexivity.
+    + rewrite (resend_messages_empty_range s b e m Hp Hlt). reflexivity.
+  - destruct (c_disable_persist (s_cfg s)) eqn:Hp.
+    + destruct (resend_messages_chain_no_persist s b e m Hf Hp Hst Hge) as (new & G1 & G2).
+      exists new. split; [exact G1|]. rewrite G2, Z.eqb_refl. reflexivity.
+    + destruct (resend_messages_chain s b e m Hf Hp Hge (Hst Hge)) as (new & G1 & G2).
+      exists new. split; [exact G1|]. rewrite G2, Z.eqb_refl. reflexivity.
+Qed.
